@@ -32,6 +32,7 @@ static char const* const INST = "std";
 static char const* const INST = "etl";
 #endif
 
+#include <csignal>
 #include <limits>
 #include <sys/wait.h>
 #include <type_traits>
@@ -43,6 +44,30 @@ using Text = std::vector<long>;
 
 static long const GUARD[4] = {161, 162, 163, 164};
 static int const FILL      = 238;
+
+// A call that terminates the process (SIGSEGV, SIGFPE, ...) is an observation too: the description of the call in
+// flight is logged with "crash": <signal> (the trace spec reports it as a deviation) and the process stops; the
+// remaining calls of this process are not executed (stderr: CRASH ...).
+static json* g_cur = nullptr;
+static void on_crash(int sig)
+{
+    if (g_cur != nullptr) {
+        (*g_cur)["crash"] = sig;
+        std::cout << g_cur->dump() << std::endl;
+        std::fprintf(stderr, "CRASH signal %d in %s; the remaining calls of this process were not executed\n", sig,
+                     (*g_cur)["op"].get<std::string>().c_str());
+    }
+    std::_Exit(0);
+}
+static void install_crash_handler()
+{
+    for (int sig : {SIGSEGV, SIGBUS, SIGFPE, SIGILL, SIGABRT}) { std::signal(sig, on_crash); }
+}
+struct InFlight {
+    json* prev;
+    explicit InFlight(json& e) : prev(g_cur) { g_cur = &e; }
+    ~InFlight() { g_cur = prev; }
+};
 
 // ---------------------------------------------------------------------------------------------
 // projections
@@ -174,6 +199,10 @@ static json from_chars_record(Text const& text, int base)
     e["base"] = base;
     e["text"] = text_json(text);
     e["v0"]   = num_of(val);
+    e["op"]   = "from_chars";
+    e["ct"]   = ctname<T>();
+    e["inst"] = INST;
+    InFlight guard(e);
     // base 10 goes through the defaulted parameter
 #ifdef VH_STD
     auto r  = base == 10 ? std::from_chars(in.p, in.p + in.n, val) : std::from_chars(in.p, in.p + in.n, val, base);
@@ -211,6 +240,8 @@ static void ev_to_chars(T v, int base, std::vector<long> const& lens, bool round
     e["v"]     = num_of(v);
     e["base"]  = base;
     e["guard"] = guard_json();
+    e["inst"]  = INST;
+    InFlight guard(e);
     json runs  = json::array();
     Text produced;
     bool have = false;
@@ -253,6 +284,8 @@ static void ev_from_integer(T v, int base, std::vector<long> const& lens)
     e["base"]  = base;
     e["term"]  = Term;
     e["guard"] = guard_json();
+    e["inst"]  = INST;
+    InFlight guard(e);
     json runs  = json::array();
     for (long len : lens) {
         OutBuf b((size_t)len);
@@ -280,6 +313,7 @@ static void ev_to_string(T v)
     e["t"]  = tname<T>();
     e["ct"] = ctname<T>();
     e["v"]  = num_of(v);
+    InFlight guard(e);
 #ifdef VH_STD
     std::string s = std::to_string(v);
     e["text"]     = text_of(s);
@@ -333,6 +367,7 @@ static bool survives(Fn fn)
     std::cout.flush();
     pid_t pid = fork();
     if (pid == 0) {
+        for (int sig : {SIGSEGV, SIGBUS, SIGFPE, SIGILL, SIGABRT}) { std::signal(sig, SIG_DFL); }
         fn();
         _exit(0);
     }
@@ -378,6 +413,8 @@ static void ev_strto(Text const& text, int base)
     e["ut"]   = tname<R>();
     e["base"] = base;
     e["text"] = text_json(text);
+    e["inst"] = INST;
+    InFlight guard(e);
     static int base0_ok = -1;
     if (base == 0 && base0_ok < 0) {
         base0_ok = survives([&] { (void)call_strto<Fn>("1", nullptr, 0); }) ? 1 : 0;
@@ -451,6 +488,8 @@ static void ev_sto(Text const& text, int base)
     if constexpr (Fn == F_stoull) { e["ut"] = tname<unsigned long long>(); }
     e["base"] = base;
     e["text"] = text_json(text);
+    e["inst"] = INST;
+    InFlight guard(e);
     static int base0_ok = -1;
     if (base == 0 && base0_ok < 0) {
         base0_ok = survives([&] {
@@ -506,6 +545,10 @@ static void ev_ato(Text const& text)
 #else
     namespace L = etl;
 #endif
+    e["op"]   = Which == 0 ? "atoi" : Which == 1 ? "atol" : "atoll";
+    e["text"] = text_json(text);
+    e["inst"] = INST;
+    InFlight guard(e);
     if constexpr (Which == 0) {
         e["op"]  = "atoi";
         e["t"]   = tname<int>();
@@ -532,9 +575,13 @@ static void ev_to_integer(Text const& text, int base)
 {
     InBuf in(text, false);
     constexpr auto opt = etl::strings::to_integer_options{.skip_whitespace = Ws, .check_overflow = Chk};
-    auto r             = etl::strings::to_integer<T, opt>(etl::string_view(in.p, in.n), static_cast<T>(base));
     json e;
     e["op"]   = "to_integer";
+    e["text"] = text_json(text);
+    e["base"] = base;
+    e["inst"] = INST;
+    InFlight guard(e);
+    auto r    = etl::strings::to_integer<T, opt>(etl::string_view(in.p, in.n), static_cast<T>(base));
     e["t"]    = tname<T>();
     e["ct"]   = ctname<T>();
     e["ws"]   = Ws;
@@ -876,6 +923,7 @@ static void do_event(json const& ev)
 int main(int argc, char** argv)
 {
     std::ios::sync_with_stdio(false);
+    install_crash_handler();
     std::string mode = argc > 1 ? argv[1] : "";
     if (mode == "event" && argc >= 3) {
         for (auto const& ev : vh::read_ndjson(argv[2])) { do_event(ev); }
